@@ -38,3 +38,198 @@ Theorem C06_no_truncation_compressed :
                   denote16 name ops = Some c /\ decode16 h = Some c.
 Proof. exact forward. Qed.
 Print Assumptions C06_no_truncation_compressed.
+
+(* ==== THE ASSEMBLER (text level): "refused with an error and produces no output ... every operand inside the documented range is accepted" ====
+   Model: Proofs/Program.v assemble_text = lexer model -> parser model -> the 16 passes of Model/Passes.v (the one-file model of
+   asm.assemble after read_lines).  TFail (PAsm l): the assembler's own error (AssemblerError) naming line l -- no result, no bytes;
+   TFail (PRaw _) would be a raw Python exception, TUnsup a line outside the models.
+   Line forms (Proofs/LegalLine.v): base_form l toks name args -- toks is a line of the R- / I- / S- / U-type tables or a branch / jal
+   with a literal offset, mnemonic in any case, registers in ANY spelling (valid or not), the immediate a LITERAL (a token whose
+   expression has no names: 2048, 0x800, -5, 1<<11), args = the operands as the encoder receives them;  c_form: the same for the 25
+   compressed mnemonics that take operands.  legal_operands32 / 16 name args: the operands as written are readable and inside the
+   documented set (Spec/Operands.v + Spec/Legal.v only). *)
+From BB Require Import Model.Items Model.Passes Model.Lexer Model.Parser Proofs.Program Proofs.Examples Proofs.LegalCompress Proofs.LegalLine.
+Import ListNotations.
+
+(* (a) a line whose operands are NOT legal: the one-line program fails with the assembler's error AT THAT LINE, with compression
+   off and on (the compression pass neither accepts it, nor turns the error into a raw exception, nor leaves the model) *)
+Theorem C06_line_refused :
+  forall l text toks name args compress,
+    lex_tokens text = Some toks -> base_form l toks name args -> legal_operands32 name args = false ->
+    assemble_text [(l, text)] [] [] compress = TFail (PAsm l).
+Proof. exact line_refused. Qed.
+Print Assumptions C06_line_refused.
+
+(* (b) the same line with legal operands: the result is the little-endian word of the generated encoder, which the Spec decodes to
+   the instruction the operands name (C01) *)
+Theorem C06_line_accepted :
+  forall l text toks name args,
+    lex_tokens text = Some toks -> base_form l toks name args -> legal_operands32 name args = true ->
+    exists w ops i,
+      encode name args [] = Ok w /\
+      assemble_text [(l, text)] [] [] false = TDone {| r_chunks := [(l, CBytes (le_bytes 4 w))]; r_consts := []; r_labels := [] |} /\
+      0 <= w < 2 ^ 32 /\ operands32 name args [] = Some ops /\ legal32 name ops = true /\ denote32 name ops = Some i /\ decode32 w = Some i.
+Proof. exact line_accepted. Qed.
+Print Assumptions C06_line_accepted.
+(* ... and with compression on it is accepted as well (through the positive half of C12 on the one-line program; what the bytes are --
+   the same word, or the halfword of a compressed instruction with the same meaning -- is C04 / C20) *)
+Theorem C06_line_accepted_with_compression :
+  forall l text toks name args,
+    lex_tokens text = Some toks -> base_form l toks name args -> legal_operands32 name args = true ->
+    exists r, assemble_text [(l, text)] [] [] true = TDone r.
+Proof. exact line_accepted_compress. Qed.
+Print Assumptions C06_line_accepted_with_compression.
+
+(* (c) inside ANY file (the other lines arbitrary -- labels, constants, data, pseudo-instructions, aligns, lines that fail), any
+   initial constants and labels, both modes: a file that contains such a line NEVER assembles (the failure may come from an
+   earlier line; there is no result).  Side condition, on the register tokens of the line only: a token is not the name of a
+   constant -- it is not in the initial table, and it is a register name / integer literal (which resolve_constants refuses to
+   define) or no line of the file is `token = ...`.  (Without it the statement is false: `addi foo, x1, 0` is legal after `foo = 5`.) *)
+Theorem C06_line_refused_in_any_program :
+  forall ls consts0 labels0 compress l text toks name args,
+    In (l, text) ls -> lex_tokens text = Some toks -> base_form l toks name args -> legal_operands32 name args = false ->
+    (forall s, In s (arg_strs args) -> assoc_str s consts0 = None /\ (reg_like s = true \/ ~ In s (defined_names ls))) ->
+    forall r, assemble_text ls consts0 labels0 compress <> TDone r.
+Proof. exact line_in_program. Qed.
+Print Assumptions C06_line_refused_in_any_program.
+
+(* (d) explicitly written compressed instructions: refused at the line in both modes / accepted with the encoder's halfword, which
+   is a legal RV32C encoding of the instruction named (C02) / never part of a file that assembles *)
+Theorem C06_c_line_refused :
+  forall l text toks name args compress,
+    lex_tokens text = Some toks -> c_form l toks name args -> legal_operands16 name args = false ->
+    assemble_text [(l, text)] [] [] compress = TFail (PAsm l).
+Proof. exact c_line_refused. Qed.
+Print Assumptions C06_c_line_refused.
+Theorem C06_c_line_accepted :
+  forall l text toks name args,
+    lex_tokens text = Some toks -> c_form l toks name args -> legal_operands16 name args = true ->
+    exists h ops c,
+      encode name args [] = Ok h /\
+      assemble_text [(l, text)] [] [] false = TDone {| r_chunks := [(l, CBytes (le_bytes 2 h))]; r_consts := []; r_labels := [] |} /\
+      0 <= h < 2 ^ 16 /\ operands16 name args = Some ops /\ legal16 name ops = true /\ denote16 name ops = Some c /\ decode16 h = Some c.
+Proof. exact c_line_accepted. Qed.
+Print Assumptions C06_c_line_accepted.
+Theorem C06_c_line_accepted_with_compression :
+  forall l text toks name args,
+    lex_tokens text = Some toks -> c_form l toks name args -> legal_operands16 name args = true ->
+    exists r, assemble_text [(l, text)] [] [] true = TDone r.
+Proof. exact c_line_accepted_compress. Qed.
+Print Assumptions C06_c_line_accepted_with_compression.
+Theorem C06_c_line_refused_in_any_program :
+  forall ls consts0 labels0 compress l text toks name args,
+    In (l, text) ls -> lex_tokens text = Some toks -> c_form l toks name args -> legal_operands16 name args = false ->
+    (forall s, In s (arg_strs args) -> assoc_str s consts0 = None /\ (reg_like s = true \/ ~ In s (defined_names ls))) ->
+    forall r, assemble_text ls consts0 labels0 compress <> TDone r.
+Proof. exact c_line_in_program. Qed.
+Print Assumptions C06_c_line_refused_in_any_program.
+
+(* ... and for EVERY instruction line the parser model accepts (every instruction class except the atomics lr.w / sc.w / amo*.w -- so
+   also fence, ecall, c.nop, the base+offset spelling `lw x8, 4(x9)` ...), stated with the parser's item: if the generated encoder refuses the operands
+   the line will finally carry (set_lit: the literal immediate evaluated) the line is refused at its line in both modes; if it
+   accepts them the bytes are its word.  closed_imm: the immediate, if any, is a literal.  With C06_exact_base / C06_exact_compressed
+   "refuses" is "outside the documented set". *)
+Theorem C06_any_instruction_line_refused :
+  forall l text t ts cls name fs c compress,
+    lex_tokens text = Some (t :: ts) -> parse_item l (t :: ts) = FOk (IInstr cls name fs c) ->
+    is_atomic_cls cls = false -> closed_imm fs ->
+    (forall w, encode name (args_of (set_lit fs)) [] <> Ok w) ->
+    assemble_text [(l, text)] [] [] compress = TFail (PAsm l).
+Proof. intros; eapply any_line_refused; eauto. Qed.
+Print Assumptions C06_any_instruction_line_refused.
+Theorem C06_any_instruction_line_accepted :
+  forall l text t ts cls name fs c w,
+    lex_tokens text = Some (t :: ts) -> parse_item l (t :: ts) = FOk (IInstr cls name fs c) ->
+    is_atomic_cls cls = false -> closed_imm fs ->
+    encode name (args_of (set_lit fs)) [] = Ok w ->
+    assemble_text [(l, text)] [] [] false =
+    TDone {| r_chunks := [(l, CBytes (le_bytes (if c then 2 else 4) w))]; r_consts := []; r_labels := [] |}.
+Proof. intros; eapply any_line_accepted; eauto. Qed.
+Print Assumptions C06_any_instruction_line_accepted.
+
+(* why compression cannot rescue (or break) a refused instruction: a rule of the GENERATED criteria table fires only on operands the
+   32-bit encoder accepts (in-kernel sweep of every rule's operand box, Proofs/LegalSweep.v) *)
+Theorem C06_rules_fire_on_legal_operands_only :
+  forall v r, Rules.select_num Gen.Criteria.criteria v = Some r -> Rules.wf_view v -> Rules.regs_ok v -> LegalSweepDef.rule_legal v = true.
+Proof. exact LegalSweep.selected_legal. Qed.
+Print Assumptions C06_rules_fire_on_legal_operands_only.
+
+(* ---- non-vacuity: the hypotheses hold of real lines (computed), and the conclusions are what the model computes ------------------ *)
+Local Open Scope string_scope.
+Ltac in_table := apply AcceptMono.mem_in; vm_compute; reflexivity.
+Example C06_addi_2048_refused :       (* `addi x1, x2, 2048`: refused at its line in both modes *)
+  lex_tokens "addi x1, x2, 2048" = Some ["addi"; "x1"; "x2"; "2048"] /\
+  base_form (exL 1) ["addi"; "x1"; "x2"; "2048"] "addi" [AStr "x1"; AStr "x2"; AInt 2048] /\
+  legal_operands32 "addi" [AStr "x1"; AStr "x2"; AInt 2048] = false /\
+  assemble_text [(exL 1, "addi x1, x2, 2048")] [] [] false = TFail (PAsm (exL 1)) /\
+  assemble_text [(exL 1, "addi x1, x2, 2048")] [] [] true = TFail (PAsm (exL 1)).
+Proof.
+  assert (F : base_form (exL 1) ["addi"; "x1"; "x2"; "2048"] "addi" [AStr "x1"; AStr "x2"; AInt 2048]).
+  { apply (F_i _ "addi" "addi" "x1" "x2" "2048" (ANum 2048) 2048); try (vm_compute; reflexivity). in_table. }
+  assert (L : lex_tokens "addi x1, x2, 2048" = Some ["addi"; "x1"; "x2"; "2048"]) by (vm_compute; reflexivity).
+  assert (G : legal_operands32 "addi" [AStr "x1"; AStr "x2"; AInt 2048] = false) by (vm_compute; reflexivity).
+  split. exact L. split. exact F. split. exact G.
+  split; apply (C06_line_refused _ _ _ _ _ _ L F G).
+Qed.
+Example C06_addi_2047_accepted :      (* `addi x1, x2, 2047`: accepted, bytes 93 00 f1 7f *)
+  base_form (exL 1) ["addi"; "x1"; "x2"; "2047"] "addi" [AStr "x1"; AStr "x2"; AInt 2047] /\
+  legal_operands32 "addi" [AStr "x1"; AStr "x2"; AInt 2047] = true /\
+  assemble_text [(exL 1, "addi x1, x2, 2047")] [] [] false =
+    TDone {| r_chunks := [(exL 1, CBytes [147; 0; 241; 127])]; r_consts := []; r_labels := [] |}.
+Proof.
+  split. { apply (F_i _ "addi" "addi" "x1" "x2" "2047" (ANum 2047) 2047); try (vm_compute; reflexivity). in_table. }
+  split; vm_compute; reflexivity.
+Qed.
+Example C06_negative_literal_refused :   (* `ADDI x1, x2, -2049`: upper-case mnemonic, the literal is the expression -(2049) *)
+  lex_tokens "ADDI x1, x2, -2049" = Some ["ADDI"; "x1"; "x2"; "-2049"] /\
+  base_form (exL 7) ["ADDI"; "x1"; "x2"; "-2049"] "addi" [AStr "x1"; AStr "x2"; AInt (-2049)] /\
+  legal_operands32 "addi" [AStr "x1"; AStr "x2"; AInt (-2049)] = false.
+Proof.
+  split. vm_compute; reflexivity. split; [|vm_compute; reflexivity].
+  apply (F_i _ "ADDI" "addi" "x1" "x2" "-2049" (AUn UNeg (ANum 2049)) (-2049)); try (vm_compute; reflexivity). in_table.
+Qed.
+Example C06_slli_32_refused :         (* `slli x1, x2, 32`: shift amount >= 32, refused at its line in both modes *)
+  lex_tokens "slli x1, x2, 32" = Some ["slli"; "x1"; "x2"; "32"] /\
+  base_form (exL 1) ["slli"; "x1"; "x2"; "32"] "slli" [AStr "x1"; AStr "x2"; AStr "32"] /\
+  legal_operands32 "slli" [AStr "x1"; AStr "x2"; AStr "32"] = false /\
+  forall c, assemble_text [(exL 1, "slli x1, x2, 32")] [] [] c = TFail (PAsm (exL 1)).
+Proof.
+  assert (F : base_form (exL 1) ["slli"; "x1"; "x2"; "32"] "slli" [AStr "x1"; AStr "x2"; AStr "32"]).
+  { apply (F_r _ "slli" "slli" "x1" "x2" "32" (ANum 32)); try (vm_compute; reflexivity). in_table. }
+  assert (L : lex_tokens "slli x1, x2, 32" = Some ["slli"; "x1"; "x2"; "32"]) by (vm_compute; reflexivity).
+  assert (G : legal_operands32 "slli" [AStr "x1"; AStr "x2"; AStr "32"] = false) by (vm_compute; reflexivity).
+  split. exact L. split. exact F. split. exact G.
+  intro c. apply (C06_line_refused _ _ _ _ _ _ L F G).
+Qed.
+Example C06_c_addi_32_refused :       (* `c.addi x8, 32`: refused at its line in both modes; `c.addi x8, 31` accepted *)
+  lex_tokens "c.addi x8, 32" = Some ["c.addi"; "x8"; "32"] /\
+  c_form (exL 1) ["c.addi"; "x8"; "32"] "c.addi" [AStr "x8"; AInt 32] /\
+  legal_operands16 "c.addi" [AStr "x8"; AInt 32] = false /\
+  (forall c, assemble_text [(exL 1, "c.addi x8, 32")] [] [] c = TFail (PAsm (exL 1))) /\
+  legal_operands16 "c.addi" [AStr "x8"; AInt 31] = true /\
+  assemble_text [(exL 1, "c.addi x8, 31")] [] [] false = TDone {| r_chunks := [(exL 1, CBytes [125; 4])]; r_consts := []; r_labels := [] |}.
+Proof.
+  assert (F : c_form (exL 1) ["c.addi"; "x8"; "32"] "c.addi" [AStr "x8"; AInt 32]).
+  { apply (FC_ri _ "c.addi" "c.addi" "x8" "32" (ANum 32) 32); try (vm_compute; reflexivity). in_table. }
+  assert (L : lex_tokens "c.addi x8, 32" = Some ["c.addi"; "x8"; "32"]) by (vm_compute; reflexivity).
+  assert (G : legal_operands16 "c.addi" [AStr "x8"; AInt 32] = false) by (vm_compute; reflexivity).
+  split. exact L. split. exact F. split. exact G.
+  split. { intro c. apply (C06_c_line_refused _ _ _ _ _ _ L F G). }
+  split; vm_compute; reflexivity.
+Qed.
+Example C06_program_example :         (* a file with a label, a constant, data and the line `sw sp, x99, 4` (line 4): never assembles;
+                                         with -c the c.swsp rule fires on it (its predicates never read rs2) and c.swsp's encoder refuses *)
+  let ls := [(exL 1, "start:"); (exL 2, "N = 4"); (exL 3, "  addi x8, x8, N"); (exL 4, "  sw sp, x99, 4"); (exL 5, "  dw start")] in
+  In (exL 4, "  sw sp, x99, 4") ls /\
+  base_form (exL 4) ["sw"; "sp"; "x99"; "4"] "sw" [AStr "sp"; AStr "x99"; AInt 4] /\
+  legal_operands32 "sw" [AStr "sp"; AStr "x99"; AInt 4] = false /\
+  (forall s, In s (arg_strs [AStr "sp"; AStr "x99"; AInt 4]) -> assoc_str s ([] : envt) = None /\ (reg_like s = true \/ ~ In s (defined_names ls))) /\
+  assemble_text ls [] [] false = TFail (PAsm (exL 4)) /\ assemble_text ls [] [] true = TFail (PAsm (exL 4)).
+Proof.
+  cbv zeta. split. { right; right; right; left; reflexivity. }
+  split. { apply (F_s _ "sw" "sw" "sp" "x99" "4" (ANum 4) 4); try (vm_compute; reflexivity). in_table. }
+  split. { vm_compute; reflexivity. }
+  split. { intros s [<-|[<-|[]]]; (split; [reflexivity|]). left; vm_compute; reflexivity.
+           right. vm_compute. intros [H|[]]. discriminate. }
+  split; vm_compute; reflexivity.
+Qed.
